@@ -607,6 +607,11 @@ class ExtendedIndexedOperand(Operand):
                     max_size = size
                     raw_post_byte |= 0x9C if fits_8_bit else 0x9D
                     additional = NumericValue(displacement, size_hint=2 if fits_8_bit else 4)
+            elif additional_needs_resolution:
+                # a label (or label expression) as a constant offset: a 16-bit offset, filled in once addresses are known
+                raw_post_byte |= 0x99
+                size += 2
+                max_size = size
             else:
                 if additional.is_negative():
                     if additional.is_8_bit():
@@ -742,6 +747,11 @@ class IndexedOperand(Operand):
                     max_size = size
                     raw_post_byte |= 0x8C if fits_8_bit else 0x8D
                     additional = NumericValue(displacement, size_hint=2 if fits_8_bit else 4)
+            elif additional_needs_resolution:
+                # a label (or label expression) as a constant offset: a 16-bit offset, filled in once addresses are known
+                raw_post_byte |= 0x89
+                size += 2
+                max_size = size
             else:
                 if additional.is_negative():
                     if additional.is_4_bit():
